@@ -105,6 +105,10 @@ struct Scenario {
     #[serde(default)]
     name: Option<String>, // tls_client: expected server name (None = name verification disabled)
     #[serde(default)]
+    dns: String, // tls_client through the C ABI: dns_name as given
+    #[serde(default)]
+    wildcard: bool, // tls_client through the C ABI: allow_server_name_wildcard
+    #[serde(default)]
     local_cert: String, // tls_client: the client's own certificate
     steps: Vec<Step>,
 }
@@ -486,16 +490,216 @@ impl rodbus::client::Listener<rodbus::client::ClientState> for StateLog {
     }
 }
 
+// ---- the TLS client created through the C ABI (rodbus_client_channel_create_tls)
+struct CabiStates {
+    sink: Sink,
+    last: Arc<std::sync::Mutex<Vec<String>>>,
+}
+extern "C" fn cabi_on_state(state: std::os::raw::c_int, ctx: *mut std::os::raw::c_void) {
+    let c = unsafe { &*(ctx as *const CabiStates) };
+    let name = match state {
+        0 => "Disabled",
+        1 => "Connecting",
+        2 => "Connected",
+        3 => "WaitAfterFailedConnect",
+        4 => "WaitAfterDisconnect",
+        5 => "Shutdown",
+        _ => "?",
+    }
+    .to_string();
+    c.sink.emit(json!({"e":"cstate","state":name}));
+    c.last.lock().unwrap().push(name);
+}
+struct CabiResult {
+    slot: std::sync::Mutex<Option<String>>,
+}
+extern "C" fn cabi_regs(it: *mut rodbus_ffi::RegisterValueIterator, ctx: *mut std::os::raw::c_void) {
+    let c = unsafe { &*(ctx as *const CabiResult) };
+    let mut first = None;
+    unsafe {
+        loop {
+            let p = rodbus_ffi::ffi::rodbus_register_value_iterator_next(it);
+            if p.is_null() {
+                break;
+            }
+            if first.is_none() {
+                first = Some((*p).value);
+            }
+        }
+    }
+    *c.slot.lock().unwrap() = Some(format!("ok{}", first.unwrap_or(0)));
+}
+extern "C" fn cabi_fail(err: std::os::raw::c_int, ctx: *mut std::os::raw::c_void) {
+    let c = unsafe { &*(ctx as *const CabiResult) };
+    *c.slot.lock().unwrap() = Some(format!("error{err}"));
+}
+
+/// returns (channel, runtime) as addresses, or the return code of the failed call
+struct CabiClientCfg {
+    dns: String,
+    wildcard: bool,
+    peer_cert: String,
+    local_cert: String,
+    min_tls: String,
+    mode: String,
+}
+
+fn cabi_tls_client_create_cfg(sc: &CabiClientCfg, port: u16, sink: &Sink, states: &Arc<std::sync::Mutex<Vec<String>>>) -> Result<(usize, usize), i32> {
+    use rodbus_ffi::ffi;
+    use std::ffi::CString;
+    unsafe {
+        let mut rt: *mut rodbus_ffi::Runtime = std::ptr::null_mut();
+        let rc = ffi::rodbus_runtime_create(ffi::RuntimeConfig { num_core_threads: 2 }, &mut rt);
+        if rc != 0 {
+            return Err(rc);
+        }
+        let dns = CString::new(sc.dns.clone()).unwrap();
+        let peer = CString::new(pem_path(&sc.peer_cert, "cert")).unwrap();
+        let cert = CString::new(pem_path(&sc.local_cert, "cert")).unwrap();
+        let key = CString::new(pem_path(&sc.local_cert, "key")).unwrap();
+        let pw = CString::new("").unwrap();
+        let cfg: ffi::TlsClientConfig = ffi::TlsClientConfigFields {
+            dns_name: &dns,
+            peer_cert_path: &peer,
+            local_cert_path: &cert,
+            private_key_path: &key,
+            password: &pw,
+            min_tls_version: if sc.min_tls == "1.3" { ffi::MinTlsVersion::V13 } else { ffi::MinTlsVersion::V12 },
+            certificate_mode: if sc.mode == "self" { ffi::CertificateMode::SelfSigned } else { ffi::CertificateMode::AuthorityBased },
+            allow_server_name_wildcard: sc.wildcard,
+        }
+        .into();
+        let lctx = Box::leak(Box::new(CabiStates { sink: sink.clone(), last: states.clone() }));
+        let l = ffi::ClientStateListener { on_change: Some(cabi_on_state), on_destroy: None, ctx: lctx as *mut CabiStates as *mut std::os::raw::c_void };
+        let host = CString::new("127.0.0.1").unwrap();
+        let mut ch: *mut rodbus_ffi::ClientChannel = std::ptr::null_mut();
+        let rc = ffi::rodbus_client_channel_create_tls(rt, host.as_ptr(), port, 4, ffi::RetryStrategy { min_delay: 200, max_delay: 200 }, cfg,
+            ffi::DecodeLevel { app: 0, frame: 0, physical: 0 }, l, &mut ch);
+        if rc != 0 {
+            ffi::rodbus_runtime_destroy(rt);
+            return Err(rc);
+        }
+        ffi::rodbus_client_channel_enable(ch);
+        Ok((ch as usize, rt as usize))
+    }
+}
+
+fn cabi_read_one(ch: usize) -> String {
+    use rodbus_ffi::ffi;
+    unsafe {
+        let ctx = Box::leak(Box::new(CabiResult { slot: std::sync::Mutex::new(None) }));
+        let cb = ffi::RegisterReadCallback { on_complete: Some(cabi_regs), on_failure: Some(cabi_fail), on_destroy: None, ctx: ctx as *mut CabiResult as *mut std::os::raw::c_void };
+        let rc = ffi::rodbus_client_channel_read_holding_registers(ch as *mut rodbus_ffi::ClientChannel, ffi::RequestParam { unit_id: 1, timeout: 1500 },
+            ffi::AddressRange { start: 0, count: 1 }, cb);
+        if rc != 0 {
+            return format!("rc{rc}");
+        }
+        let t0 = std::time::Instant::now();
+        while t0.elapsed() < Duration::from_millis(2500) {
+            if let Some(x) = ctx.slot.lock().unwrap().clone() {
+                return x;
+            }
+            std::thread::sleep(Duration::from_millis(3));
+        }
+        "pending".to_string()
+    }
+}
+
+fn cabi_client_destroy(ch: usize, rt: usize) {
+    unsafe {
+        rodbus_ffi::ffi::rodbus_client_channel_destroy(ch as *mut rodbus_ffi::ClientChannel);
+        rodbus_ffi::ffi::rodbus_runtime_destroy(rt as *mut rodbus_ffi::Runtime);
+    }
+}
+
 /// C09 client role (and the handshake-stall scenarios): the rodbus TLS client against a rustls server of the harness
 async fn run_tls_client(sc: &Scenario, sink: &Sink) {
     use rodbus::client::*;
-    sink.emit(json!({"e":"tlsc_cfg","id":sc.id,"mode":sc.mode,"min_tls":sc.min_tls,"trust":sc.peer_cert,
-        "name":sc.name.clone().unwrap_or_default(),"local_cert":sc.local_cert}));
+    let cabi = sc.api == "cabi";
+    if cabi {
+        sink.emit(json!({"e":"tlsc_cfg","id":sc.id,"mode":sc.mode,"min_tls":sc.min_tls,"trust":sc.peer_cert,
+            "dns":sc.dns,"wildcard":sc.wildcard,"local_cert":sc.local_cert,"api":"cabi"}));
+    } else {
+        sink.emit(json!({"e":"tlsc_cfg","id":sc.id,"mode":sc.mode,"min_tls":sc.min_tls,"trust":sc.peer_cert,
+            "name":sc.name.clone().unwrap_or_default(),"local_cert":sc.local_cert}));
+    }
     let min = if sc.min_tls == "1.3" { MinTlsVersion::V1_3 } else { MinTlsVersion::V1_2 };
     for st in &sc.steps {
         let peer = st.tls.clone().unwrap_or_default();
         let listener = tokio::net::TcpListener::bind("127.0.0.1:0").await.unwrap();
         let port = listener.local_addr().unwrap().port();
+        if cabi {
+            let states = Arc::new(std::sync::Mutex::new(Vec::new()));
+            let created = {
+                let (sink2, states2) = (sink.clone(), states.clone());
+                let sc2 = CabiClientCfg { dns: sc.dns.clone(), wildcard: sc.wildcard, peer_cert: sc.peer_cert.clone(), local_cert: sc.local_cert.clone(),
+                    min_tls: sc.min_tls.clone(), mode: sc.mode.clone() };
+                off_runtime(move || cabi_tls_client_create_cfg(&sc2, port, &sink2, &states2)).await
+            };
+            let (ch, rt) = match created {
+                Ok(x) => x,
+                Err(rc) => {
+                    sink.emit(json!({"e":"create_failed","why":format!("rc={rc}")}));
+                    continue;
+                }
+            };
+            let (stream, _) = match tokio::time::timeout(Duration::from_secs(3), listener.accept()).await {
+                Ok(Ok(x)) => x,
+                _ => {
+                    sink.emit(json!({"e":"tlsc","cert":peer.cert.clone().unwrap_or_default(),"versions":peer.versions,"outcome":"noconnect","version":""}));
+                    off_runtime(move || cabi_client_destroy(ch, rt)).await;
+                    continue;
+                }
+            };
+            let acceptor = match server_config(peer.cert.as_deref().unwrap_or("server"), &peer.versions) {
+                Ok(c) => tokio_rustls::TlsAcceptor::from(Arc::new(c)),
+                Err(e) => {
+                    sink.emit(json!({"e":"tls","outcome":"config_error","err":e}));
+                    off_runtime(move || cabi_client_destroy(ch, rt)).await;
+                    continue;
+                }
+            };
+            let accepted = tokio::time::timeout(Duration::from_secs(3), acceptor.accept(stream)).await;
+            let t0 = std::time::Instant::now();
+            let mut verdict = "none".to_string();
+            while t0.elapsed() < Duration::from_secs(3) {
+                let g = states.lock().unwrap();
+                if let Some(x) = g.iter().find(|x| *x == "Connected" || x.starts_with("WaitAfter")) {
+                    verdict = x.clone();
+                    break;
+                }
+                drop(g);
+                tokio::time::sleep(Duration::from_millis(5)).await;
+            }
+            let (srv_ok, version) = match &accepted {
+                Ok(Ok(s)) => (true, match s.get_ref().1.protocol_version() {
+                    Some(rustls::ProtocolVersion::TLSv1_2) => "1.2",
+                    Some(rustls::ProtocolVersion::TLSv1_3) => "1.3",
+                    _ => "?",
+                }),
+                _ => (false, ""),
+            };
+            let mut modbus = "none".to_string();
+            if let (Ok(Ok(mut s)), true) = (accepted, verdict == "Connected") {
+                let reqt = tokio::spawn(off_runtime(move || cabi_read_one(ch)));
+                let mut buf = [0u8; 64];
+                if let Ok(Ok(n)) = tokio::time::timeout(Duration::from_secs(2), s.read(&mut buf)).await {
+                    if n >= 12 {
+                        let rsp = [buf[0], buf[1], 0, 0, 0, 5, buf[6], 3, 2, 0, 9];
+                        let _ = s.write_all(&rsp).await;
+                    }
+                }
+                modbus = match tokio::time::timeout(Duration::from_secs(3), reqt).await {
+                    Ok(Ok(v)) => v,
+                    _ => "pending".to_string(),
+                };
+            }
+            sink.emit(json!({"e":"tlsc","cert":peer.cert.clone().unwrap_or_default(),"versions":peer.versions,
+                "outcome": if verdict == "Connected" { "connected" } else if verdict.starts_with("WaitAfter") { "failed" } else { "none" },
+                "verdict":verdict,"server_side_established":srv_ok,"version":version,"modbus":modbus}));
+            off_runtime(move || cabi_client_destroy(ch, rt)).await;
+            continue;
+        }
         let cfg = if sc.mode == "self" {
             TlsClientConfig::self_signed(
                 std::path::Path::new(&pem_path(&sc.peer_cert, "cert")),
@@ -674,434 +878,3 @@ async fn run_scenario(sc: &Scenario, sink: &Sink) {
     let port;
     if sc.api == "cabi" {
         port = free_port(ip);
-        let scj = serde_json::to_string(&ScenarioLite::from(sc)).unwrap();
-        let listen = sc.listen.clone();
-        let created = off_runtime(move || {
-            let sc: ScenarioLite = serde_json::from_str(&scj).unwrap();
-            cabi::create(&sc, &listen, port).map(|(s, rt)| (s as usize, rt as usize))
-        })
-        .await;
-        match created {
-            Ok((s, rt)) => server = ServerH::Cabi(s as *mut rodbus_ffi::Server, rt as *mut rodbus_ffi::Runtime),
-            Err(e) => {
-                sink.emit(json!({"e":"create_failed","why":e}));
-                rodbus::verif::install_sink(None);
-                return;
-            }
-        }
-    } else {
-        let filter = match make_filter(&sc.filter) {
-            Ok(f) => f,
-            Err(e) => {
-                sink.emit(json!({"e":"create_failed","why":e}));
-                rodbus::verif::install_sink(None);
-                return;
-            }
-        };
-        let mut map = ServerHandlerMap::new();
-        for u in &sc.units {
-            map.add(UnitId::new(*u), DbHandler::new(*u, sc.seed, &holes, sink.clone()).wrap());
-        }
-        let listener = tokio::net::TcpListener::bind(SocketAddr::new(ip, 0)).await.unwrap();
-        port = listener.local_addr().unwrap().port();
-        let (handle, task) = match sc.variant.as_str() {
-            "tcp" => create_tcp_server_task(sc.max_sessions, listener, map, filter, DecodeLevel::nothing()),
-            v => {
-                let mode = if sc.mode == "self" { CertificateMode::SelfSigned } else { CertificateMode::AuthorityBased };
-                let min = if sc.min_tls == "1.3" { MinTlsVersion::V1_3 } else { MinTlsVersion::V1_2 };
-                let cfg = match TlsServerConfig::new(
-                    std::path::Path::new(&pem_path(&sc.peer_cert, "cert")),
-                    std::path::Path::new(&pem_path(&sc.server_cert, "cert")),
-                    std::path::Path::new(&pem_path(&sc.server_cert, "key")),
-                    None,
-                    min,
-                    mode,
-                ) {
-                    Ok(c) => c,
-                    Err(e) => {
-                        sink.emit(json!({"e":"create_failed","why":format!("{e}")}));
-                        rodbus::verif::install_sink(None);
-                        return;
-                    }
-                };
-                if v == "tls" {
-                    create_tls_server_task(sc.max_sessions, listener, map, cfg, filter, DecodeLevel::nothing())
-                } else {
-                    let auth = PolicyAuth::create(
-                        AuthCfg { policy: sc.auth.clone().unwrap_or_else(|| "allow".into()), seed: 1, role: String::new() },
-                        sink.clone(),
-                    );
-                    create_tls_server_task_with_authz(sc.max_sessions, listener, map, auth, cfg, filter, DecodeLevel::nothing())
-                }
-            }
-        };
-        tokio::spawn(task.run());
-        server = ServerH::Rust(Some(handle));
-    }
-    let target = SocketAddr::new(if ip.is_unspecified() { "127.0.0.1".parse().unwrap() } else { ip }, port);
-    sink.emit(json!({"e":"listening"}));
-
-    let mut peers: HashMap<usize, Peer> = HashMap::new();
-    let mut flooders: std::collections::HashSet<usize> = std::collections::HashSet::new();
-    let mut ended = false;
-
-    for st in &sc.steps {
-        match st.op.as_str() {
-            "connect" => {
-                let src: IpAddr = st.src.parse().unwrap();
-                sink.emit(json!({"e":"connecting","c":st.c,"src":octets(&src),"silent":st.silent}));
-                let sock = if src.is_ipv4() { TcpSocket::new_v4() } else { TcpSocket::new_v6() }.unwrap();
-                let _ = sock.bind(SocketAddr::new(src, 0));
-                let tgt = if src.is_ipv6() && target.is_ipv4() { target } else { target };
-                let res = tokio::time::timeout(Duration::from_secs(2), sock.connect(tgt)).await;
-                let stream = match res {
-                    Ok(Ok(s)) => s,
-                    _ => {
-                        sink.emit(json!({"e":"connected","c":st.c,"result":"refused"}));
-                        continue;
-                    }
-                };
-                let _ = stream.set_nodelay(true);
-                if ended {
-                    // a listener that still accepts after the server ended
-                    sink.emit(json!({"e":"connected","c":st.c,"result":"ok"}));
-                    let mut c = Conn::Plain(stream);
-                    let (o, n) = peer_view(&mut c, 500).await;
-                    sink.emit(json!({"e":"peer_view","c":st.c,"outcome":o,"n":n}));
-                    continue;
-                }
-                let f = wait_hook(&mut hrx, |e| matches!(e, Event::Filter { .. }), 3000).await;
-                let matched = match f {
-                    Some(Event::Filter { matches, .. }) => matches,
-                    _ => {
-                        sink.emit(json!({"e":"noaccept","c":st.c}));
-                        continue;
-                    }
-                };
-                if !matched {
-                    sink.emit(json!({"e":"connected","c":st.c,"result":"ok"}));
-                    let mut c = Conn::Plain(stream);
-                    let (o, n) = peer_view(&mut c, 2000).await;
-                    sink.emit(json!({"e":"peer_view","c":st.c,"outcome":o,"n":n}));
-                    continue;
-                }
-                let t = wait_hook(&mut hrx, |e| matches!(e, Event::Track { .. }), 3000).await;
-                let (id, evicted) = match t {
-                    Some(Event::Track { id, evicted, .. }) => (id, evicted),
-                    _ => {
-                        sink.emit(json!({"e":"notrack","c":st.c}));
-                        continue;
-                    }
-                };
-                sink.emit(json!({"e":"connected","c":st.c,"result":"ok"}));
-                let conn = if sc.variant != "tcp" && !st.silent {
-                    let peer = st.tls.clone().unwrap_or(TlsPeer { cert: Some("client_operator".into()), versions: vec!["1.2".into(), "1.3".into()] });
-                    match client_config(&peer) {
-                        Err(e) => {
-                            sink.emit(json!({"e":"tls","c":st.c,"outcome":"config_error","err":e}));
-                            Conn::Plain(stream)
-                        }
-                        Ok(cfg) => {
-                            let connector = tokio_rustls::TlsConnector::from(Arc::new(cfg));
-                            let name = rustls::pki_types::ServerName::try_from("test.com").unwrap();
-                            match tokio::time::timeout(Duration::from_secs(3), connector.connect(name, stream)).await {
-                                Ok(Ok(mut s)) => {
-                                    // TLS 1.3: a refused client certificate only shows on the first read
-                                    let v = match s.get_ref().1.protocol_version() {
-                                        Some(rustls::ProtocolVersion::TLSv1_2) => "1.2",
-                                        Some(rustls::ProtocolVersion::TLSv1_3) => "1.3",
-                                        _ => "?",
-                                    };
-                                    let mut probe = [0u8; 1];
-                                    let early = tokio::time::timeout(Duration::from_millis(300), s.read(&mut probe)).await;
-                                    match early {
-                                        Err(_) => {
-                                            sink.emit(json!({"e":"tls","c":st.c,"outcome":"established","version":v,"cert":peer.cert.clone().unwrap_or_else(|| "none".into()),"versions":peer.versions}));
-                                            Conn::Tls(Box::new(s))
-                                        }
-                                        Ok(r) => {
-                                            sink.emit(json!({"e":"tls","c":st.c,"outcome":"rejected","version":v,"cert":peer.cert.clone().unwrap_or_else(|| "none".into()),"versions":peer.versions,"err":format!("{r:?}")}));
-                                            drop(s);
-                                            let _ = wait_hook(&mut hrx, |e| matches!(e, Event::Untrack { id: i, .. } if *i == id), 2000).await;
-                                            if let Some(ev) = evicted {
-                                                view_evicted(&mut peers, ev, sink).await;
-                                            }
-                                            continue;
-                                        }
-                                    }
-                                }
-                                Ok(Err(e)) => {
-                                    sink.emit(json!({"e":"tls","c":st.c,"outcome":"rejected","version":"","cert":peer.cert.clone().unwrap_or_else(|| "none".into()),"versions":peer.versions,"err":e.to_string()}));
-                                    peers.remove(&st.c);
-                                    // the server side ends its session
-                                    let _ = wait_hook(&mut hrx, |e| matches!(e, Event::Untrack { id: i, .. } if *i == id), 2000).await;
-                                    if let Some(ev) = evicted {
-                                        view_evicted(&mut peers, ev, sink).await;
-                                    }
-                                    continue;
-                                }
-                                Err(_) => {
-                                    sink.emit(json!({"e":"tls","c":st.c,"outcome":"timeout","version":"","cert":peer.cert.clone().unwrap_or_else(|| "none".into()),"versions":peer.versions}));
-                                    continue;
-                                }
-                            }
-                        }
-                    }
-                } else {
-                    Conn::Plain(stream)
-                };
-                peers.insert(st.c, Peer { conn, id: Some(id), tx: (st.c as u16) << 8 });
-                if let Some(ev) = evicted {
-                    view_evicted(&mut peers, ev, sink).await;
-                }
-            }
-            "req" => {
-                let p = match peers.get_mut(&st.c) {
-                    Some(p) => p,
-                    None => continue,
-                };
-                p.tx = p.tx.wrapping_add(1);
-                let len = (st.pdu.len() + 1) as u16;
-                let mut f = vec![(p.tx >> 8) as u8, p.tx as u8, 0, 0, (len >> 8) as u8, len as u8, st.unit];
-                f.extend_from_slice(&st.pdu);
-                sink.emit(json!({"e":"req","c":st.c,"bytes":bytes_json(&f)}));
-                if p.conn.write_all(&f).await.is_err() {
-                    sink.emit(json!({"e":"rsp","c":st.c,"outcome":"eof","bytes":[]}));
-                    continue;
-                }
-                match read_frame(&mut p.conn, 2500).await {
-                    Ok(b) => sink.emit(json!({"e":"rsp","c":st.c,"outcome":"reply","bytes":bytes_json(&b)})),
-                    Err(why) => sink.emit(json!({"e":"rsp","c":st.c,"outcome":why,"bytes":[]})),
-                }
-            }
-            "req_start" => {
-                let p = match peers.get_mut(&st.c) {
-                    Some(p) => p,
-                    None => continue,
-                };
-                p.tx = p.tx.wrapping_add(1);
-                let len = (st.pdu.len() + 1) as u16;
-                let mut f = vec![(p.tx >> 8) as u8, p.tx as u8, 0, 0, (len >> 8) as u8, len as u8, st.unit];
-                f.extend_from_slice(&st.pdu);
-                sink.emit(json!({"e":"req","c":st.c,"bytes":bytes_json(&f)}));
-                let _ = p.conn.write_all(&f).await;
-                tokio::time::sleep(Duration::from_millis(50)).await;
-            }
-            "rsp_wait" => {
-                let p = match peers.get_mut(&st.c) {
-                    Some(p) => p,
-                    None => continue,
-                };
-                match read_frame(&mut p.conn, 4000).await {
-                    Ok(b) => sink.emit(json!({"e":"rsp","c":st.c,"outcome":"reply","bytes":bytes_json(&b)})),
-                    Err(why) => sink.emit(json!({"e":"rsp","c":st.c,"outcome":why,"bytes":[]})),
-                }
-            }
-            "close" => {
-                if let Some(p) = peers.remove(&st.c) {
-                    sink.emit(json!({"e":"close","c":st.c}));
-                    let id = p.id;
-                    drop(p);
-                    if let Some(id) = id {
-                        if wait_hook(&mut hrx, |e| matches!(e, Event::Untrack { id: i, .. } if *i == id), 3000).await.is_none() {
-                            sink.emit(json!({"e":"nountrack","c":st.c}));
-                        }
-                    }
-                }
-            }
-            "flood" => {
-                // requests with large replies that the peer never reads: the session ends up blocked in its write
-                if let Some(p) = peers.get_mut(&st.c) {
-                    sink.emit(json!({"e":"flood","c":st.c}));
-                    let pdu = [3u8, 0, 0, 0, 125];
-                    let mut sent = 0u64;
-                    let mut batch = Vec::new();
-                    for i in 0..400u16 {
-                        let mut f = vec![(i >> 8) as u8, i as u8, 0, 0, 0, 6, st.unit];
-                        f.extend_from_slice(&pdu);
-                        batch.extend_from_slice(&f);
-                    }
-                    loop {
-                        match tokio::time::timeout(Duration::from_millis(300), p.conn.write_all(&batch)).await {
-                            Ok(Ok(())) => sent += 400,
-                            _ => break,
-                        }
-                        if sent > 400_000 {
-                            break;
-                        }
-                    }
-                    sink.emit(json!({"e":"flood_done","c":st.c,"requests_written":sent}));
-                    flooders.insert(st.c);
-                }
-            }
-            "close_many" => {
-                // many peers go away in the same instant
-                let mut ids = Vec::new();
-                let mut gone = Vec::new();
-                for c in &st.cs {
-                    if let Some(p) = peers.remove(c) {
-                        sink.emit(json!({"e":"close","c":c}));
-                        if let Some(id) = p.id {
-                            ids.push((*c, id));
-                        }
-                        gone.push(p);
-                    }
-                }
-                drop(gone);
-                let deadline = tokio::time::Instant::now() + Duration::from_millis(3000);
-                let mut pending: std::collections::HashSet<u128> = ids.iter().map(|x| x.1).collect();
-                while !pending.is_empty() {
-                    match tokio::time::timeout_at(deadline, hrx.recv()).await {
-                        Ok(Some(Event::Untrack { id, .. })) => {
-                            pending.remove(&id);
-                        }
-                        Ok(Some(_)) => {}
-                        _ => break,
-                    }
-                }
-                for (c, id) in ids {
-                    if pending.contains(&id) {
-                        sink.emit(json!({"e":"nountrack","c":c}));
-                    }
-                }
-            }
-            "send" => {
-                if let Some(p) = peers.get_mut(&st.c) {
-                    sink.emit(json!({"e":"send","c":st.c,"bytes":bytes_json(&st.bytes)}));
-                    let _ = p.conn.write_all(&st.bytes).await;
-                    let id = p.id;
-                    if let Some(id) = id {
-                        if wait_hook(&mut hrx, |e| matches!(e, Event::Untrack { id: i, .. } if *i == id), 3000).await.is_none() {
-                            sink.emit(json!({"e":"nountrack","c":st.c}));
-                        }
-                    }
-                    let (o, n) = peer_view(&mut p.conn, 2000).await;
-                    sink.emit(json!({"e":"peer_view","c":st.c,"outcome":o,"n":n}));
-                    peers.remove(&st.c);
-                }
-            }
-            "partial" => {
-                // bytes that leave the session waiting for more: no event expected
-                if let Some(p) = peers.get_mut(&st.c) {
-                    sink.emit(json!({"e":"partial","c":st.c,"bytes":bytes_json(&st.bytes)}));
-                    let _ = p.conn.write_all(&st.bytes).await;
-                }
-            }
-            "decode" => {
-                sink.emit(json!({"e":"cmd","kind":"decode"}));
-                match &mut server {
-                    ServerH::Rust(Some(h)) => {
-                        let _ = tokio::time::timeout(Duration::from_secs(2), h.set_decode_level(decode_level(&st.level))).await;
-                    }
-                    ServerH::Cabi(s, _) => {
-                        let (s, lv) = (*s as usize, st.level.clone());
-                        let _ = off_runtime(move || cabi::set_decode(s as *mut rodbus_ffi::Server, &lv)).await;
-                    }
-                    _ => {}
-                }
-            }
-            "shutdown" | "drop" => {
-                if ended {
-                    continue;
-                }
-                sink.emit(json!({"e":"cmd","kind":st.op}));
-                match std::mem::replace(&mut server, ServerH::None) {
-                    ServerH::Rust(Some(h)) => {
-                        if st.op == "shutdown" {
-                            let _ = tokio::time::timeout(Duration::from_secs(2), h.shutdown()).await;
-                            server = ServerH::Rust(Some(h));
-                        } else {
-                            drop(h);
-                        }
-                    }
-                    ServerH::Cabi(s, rt) => {
-                        let _ = off_runtime({
-                            let (s, rt) = (s as usize, rt as usize);
-                            move || cabi::destroy(s as *mut rodbus_ffi::Server, rt as *mut rodbus_ffi::Runtime)
-                        })
-                        .await;
-                    }
-                    other => server = other,
-                }
-                if wait_hook(&mut hrx, |e| matches!(e, Event::ServerEnd), 3000).await.is_none() {
-                    sink.emit(json!({"e":"no_server_end"}));
-                }
-                ended = true;
-                let mut ids: Vec<usize> = peers.keys().copied().collect();
-                ids.sort();
-                // peers that never read (flooders) are looked at last: reading their backlog would unblock their session
-                ids.sort_by_key(|c| flooders.contains(c));
-                for c in ids {
-                    let p = peers.get_mut(&c).unwrap();
-                    let (o, n) = peer_view(&mut p.conn, 2000).await;
-                    sink.emit(json!({"e":"peer_view","c":c,"outcome":o,"n":n}));
-                }
-                peers.clear();
-            }
-            _ => {}
-        }
-    }
-    // teardown
-    if !ended {
-        sink.emit(json!({"e":"cmd","kind":"teardown"}));
-        match std::mem::replace(&mut server, ServerH::None) {
-            ServerH::Rust(h) => drop(h),
-            ServerH::Cabi(s, rt) => {
-                let _ = off_runtime({
-                    let (s, rt) = (s as usize, rt as usize);
-                    move || cabi::destroy(s as *mut rodbus_ffi::Server, rt as *mut rodbus_ffi::Runtime)
-                })
-                .await;
-            }
-            ServerH::None => {}
-        }
-        let _ = wait_hook(&mut hrx, |e| matches!(e, Event::ServerEnd), 3000).await;
-    }
-    peers.clear();
-    tokio::time::sleep(Duration::from_millis(30)).await;
-    rodbus::verif::install_sink(None);
-    sink.emit(json!({"e":"scenario_end"}));
-}
-
-async fn view_evicted(peers: &mut HashMap<usize, Peer>, evicted: u128, sink: &Sink) {
-    let c = peers.iter().find(|(_, p)| p.id == Some(evicted)).map(|(c, _)| *c);
-    if let Some(c) = c {
-        let p = peers.get_mut(&c).unwrap();
-        let (o, n) = peer_view(&mut p.conn, 2000).await;
-        sink.emit(json!({"e":"peer_view","c":c,"outcome":o,"n":n}));
-        if o != "open" {
-            peers.remove(&c);
-        }
-    }
-}
-
-fn main() {
-    let args: Vec<String> = std::env::args().collect();
-    let scripts = std::fs::File::open(&args[1]).expect("scripts");
-    let out = std::fs::File::create(&args[2]).expect("trace");
-    let sink = Sink::new(Box::new(std::io::BufWriter::new(out)));
-    install_panic_hook();
-    install_tracing();
-    let wd = Watchdog::start(sink.clone(), 120);
-    let rt = tokio::runtime::Builder::new_multi_thread()
-        .worker_threads(3)
-        .enable_all()
-        .build()
-        .unwrap();
-    for line in std::io::BufReader::new(scripts).lines() {
-        let line = line.unwrap();
-        if line.trim().is_empty() {
-            continue;
-        }
-        let sc: Scenario = serde_json::from_str(&line).expect("scenario json");
-        wd.scenario(sc.id);
-        rt.block_on(run_scenario(&sc, &sink));
-        if let Some(p) = take_panic() {
-            sink.emit(json!({"e":"panic","msg":p}));
-        }
-    }
-    wd.done();
-    sink.flush();
-    eprintln!("e4_server: {} trace lines", sink.lines());
-    let _: Option<Value> = None;
-}
